@@ -40,6 +40,11 @@ type c05Case struct {
 	// Proxy: the server runs with SetUseProxy(true) and every packet is preceded by an HAProxy
 	// protocol line terminated by a NUL octet, as that mode expects (server side only)
 	Proxy bool `json:"proxy,omitempty"`
+	// the packet that is cut short (eof-mid-*, stall-timeout): flag octet, type and announced body length
+	// (0 = the defaults 0 / 1 / 20 of cases saved earlier)
+	PartFlags byte `json:"part_flags,omitempty"`
+	PartType  byte `json:"part_type,omitempty"`
+	PartN     int  `json:"part_n,omitempty"`
 	// Reset: where the stream ends it ends in a transport error (connection reset by peer), not in EOF
 	Reset bool `json:"reset,omitempty"`
 }
@@ -116,7 +121,13 @@ func genC05(t *rapid.T) c05Case {
 	case "eof-mid-header":
 		c.Partial = rapid.IntRange(1, 11).Draw(t, "partial")
 	case "eof-mid-body":
-		c.Partial = 12 + rapid.IntRange(0, 19).Draw(t, "partial") // the partial packet announces 20 bytes
+		c.PartN = rapid.SampledFrom([]int{20, 20, 6, 5, 1}).Draw(t, "part_n")
+		c.PartFlags = rapid.SampledFrom([]byte{0, 0, 1, 5}).Draw(t, "part_flags")
+		c.PartType = rapid.SampledFrom([]byte{1, 1, 2, 3}).Draw(t, "part_type")
+		c.Partial = 12 + rapid.IntRange(0, c.PartN-1).Draw(t, "partial")
+		if rapid.IntRange(0, 3).Draw(t, "header_only") == 0 {
+			c.Partial = 12 // the stream ends exactly behind a header that announces a body
+		}
 	case "stall-timeout":
 		c.Partial = rapid.IntRange(1, 31).Draw(t, "partial")
 	case "oversize":
@@ -199,7 +210,14 @@ func (c c05Case) stream() (wire []byte, chunks [][]byte, clears [][]byte) {
 	}
 	switch c.Terminal {
 	case "eof-mid-header", "eof-mid-body", "stall-timeout":
-		part := model.Frame(c.Secret, model.Header{Version: 0xc0, Type: 1, Seq: 1, Session: 0x7fff0001}, consistentBody(1, 20, []byte{9}))
+		pn, pt := c.PartN, c.PartType
+		if pn == 0 {
+			pn = 20
+		}
+		if pt == 0 {
+			pt = 1
+		}
+		part := model.Frame(c.Secret, model.Header{Version: 0xc0, Type: pt, Seq: 1, Flags: c.PartFlags, Session: 0x7fff0001}, consistentBody(pt, pn, []byte{9}))
 		if c.Side == "client" {
 			part[2] = 2
 		}
